@@ -3,7 +3,7 @@
 PROPS = {}
 HARNESSES = []
 # properties whose check is registered in MANIFEST.json (the others are listed under not_applicable)
-CLAIMED = ["C02", "C08", "C09", "C10", "C11", "C12"]
+CLAIMED = ["C02", "C05", "C06", "C08", "C09", "C10", "C11", "C12"]
 
 FMT = "alloc::fmt::format->String::new()"
 
@@ -153,15 +153,17 @@ h("C05", "c05::c05_header_fields", tier="thorough", funcs=["volume::Header::{des
 # ------------------------------------------------------------------------------------------- C07
 prop("C07",
      level_text="Bounded model checking of Message::radial / into_radial, GenericDataBlock::decoded_values and MomentData::values: header mapping for all headers (in-range date/time), moment routing for 11 concrete presence patterns (all, each single, none, dual-pol only and its complement), the value rule for all 256 raw bytes over a listed set of scale/offset pairs, plus an SMT (QF_FP) equivalence of the two value formulas' MIR for all finite f32 scale/offset (engine Z).",
-     level_note="Trusted: Kani/CBMC float bit-blasting; z3/cvc5 QF_FP for the Z query. The K value harness ranges over ten listed (scale, offset) pairs because symbolic f32 division does not terminate in CBMC; the Z query covers all finite pairs. 16-bit moments: see known finding.",
-     outside="more than 2 gates per moment in one query; NaN angles in the equality of the two conversions (PartialEq on f32)")
+     level_note="Trusted: Kani/CBMC float bit-blasting; z3/cvc5 QF_FP for the Z query. The K value harness ranges over ten listed (scale, offset) pairs because symbolic f32 division does not terminate in CBMC; the Z query covers all finite pairs. 16-bit moments were a genuine defect (one value per byte), repaired in /repo 66d1d94 and now covered by c07_gate_count.",
+     outside="more than 2 gates per moment in one query; word sizes other than 8 and 16; NaN angles in the equality of the two conversions (PartialEq on f32)")
 h("C07", "c07::c07_header_mapping", funcs=["digital_radar_data::Message::{radial,into_radial}", "Header::{date_time,radial_status}", "Radial::new + accessors"], space="all headers with non-NaN angles (date/time concrete)", bounds="no loop; complete", mem=10, timeout=1500)
-h("C07", "c07::c07_collection_time", funcs=["digital_radar_data::Message::{radial,into_radial}", "Header::date_time", "DateTime::timestamp_millis"], space="all dates 1..=65535 x all times < 86,400,000 ms", bounds="no loop; complete", mem=10, timeout=2400)
+h("C07", "c07::c07_collection_time_dates", funcs=["digital_radar_data::Message::radial", "Header::date_time", "DateTime::timestamp_millis"], space="all dates 1..=65535 at time 0", bounds="no loop", mem=8, timeout=1800)
+h("C07", "c07::c07_collection_time_times", funcs=["digital_radar_data::Message::radial", "Header::date_time", "DateTime::timestamp_millis"], space="all times < 86,400,000 ms on day 19000", bounds="no loop", mem=8, timeout=1800)
 for nm, sp in (("all", "all seven moments present"), ("single", "each single moment alone, and none"), ("dualpol_only", "ZDR+PHI+RHO only, and the complement")):
     h("C07", "c07::c07_moment_routing_%s" % nm, funcs=["Message::{radial,into_radial}", "GenericDataBlock::{moment_data,into_moment_data}", "MomentData::values"], space="presence pattern: %s; header symbolic, 1 gate per moment with distinct raw/scale/offset" % sp, bounds="concrete presence patterns; unwind 9", mfs=2048, mem=12, timeout=1800)
 h("C07", "c07::c07_values_levels_agree", funcs=["GenericDataBlock::decoded_values", "MomentData::values"], space="all 256 raw bytes x 10 listed (scale, offset) pairs", bounds="1 gate; unwind 4", mem=10, timeout=1800)
-h("C07", "c07::c07_gate_count_word8", funcs=["GenericDataBlock::decoded_values", "MomentData::values"], space="gates 0..=2, any bytes, 8-bit words", bounds="gates <= 2; unwind 5", mem=10, timeout=1500)
-h("C07", "c07::c07_known_word16_witness", witness_for="c07_word16", funcs=["GenericDataBlock::decoded_values", "MomentData::values"], space="1 gate, 16-bit word, any 2 data bytes", bounds="unwind 6", mem=10, timeout=1500)
+for w in (8, 16):
+    h("C07", "c07::c07_gate_count_word%d" % w, funcs=["GenericDataBlock::{decoded_values,moment_data}", "MomentData::values"], space="gates 0..=2, %d-bit words, any data bytes" % w, bounds="gates <= 2; unwind 6", mfs=256, mem=12, timeout=1800)
+h("C07", "c07::c07_gate_count_word16_consuming", funcs=["GenericDataBlock::into_moment_data", "MomentData::values"], space="2 gates, 16-bit words, any 4 data bytes", bounds="unwind 6", mem=8, timeout=1200)
 
 # ------------------------------------------------------------------------------------------- C19
 prop("C19",
@@ -219,7 +221,7 @@ h("C13", "c13::c13_structure_s1", tier="thorough", funcs=CFM, space="1 segment x
 h("C13", "c13::c13_structure_s2", tier="thorough", funcs=CFM, space="2 segments x 360 azimuths; zones (1,0,2)", bounds="S = 2; unwind 362", mfs=16384, mem=40, timeout=21600)
 h("C13", "c13::c13_truncated", tier="thorough", funcs=CFM, space="one declared segment, zero zone counts, every cut point 0..=726", bounds="unwind 362", mfs=16384, mem=24, timeout=10800, unwind_is_violation=True)
 h("C04", "c04::c04_type31_one_block_free", tier="thorough", funcs=["decode_digital_radar_data", "Message::radial", "GenericDataBlock::new"], space="all 2^(8*74) 76-byte inputs with block count 1: pointer, block type/name, gates, word size free", bounds="fixed length 76, 1 block; unwind 12", mem=16, mfs=128, unwind_is_violation=True, timeout=2400)
-h("C07", "z::c07_value_formula", kind="z", script="smt/z_c07.py", funcs=["GenericDataBlock::decoded_values::{closure#0} (MIR)", "MomentData::values + {closure#0,#1} (MIR)"], space="all 256 raw bytes x all finite f32 scale x all finite f32 offset (levels: every f32 bit pattern)", bounds="loop-free closures: no bound; QF_FP, z3 and cvc5 must agree", mem=6, timeout=1200)
+h("C07", "z::c07_value_formula", kind="z", script="smt/z_c07.py", funcs=["GenericDataBlock::scaled_value (MIR)", "MomentData::value_of (MIR)"], space="all 2^16 raw gate values x all finite f32 scale x all finite f32 offset (levels: every f32 bit pattern)", bounds="loop-free closures: no bound; QF_FP, z3 and cvc5 must agree", mem=6, timeout=1200)
 h("C04", "c04::c04_type31_one_block_ascii_name", funcs=["decode_digital_radar_data", "Message::radial", "GenericDataBlock::new"], space="76-byte inputs, one block at offset 36, block type and ASCII name free (all 2^21 names), gates/word size/rest free", bounds="fixed length 76, 1 block; unwind 12", mem=16, mfs=128, unwind_is_violation=True, timeout=2400)
 
 # ------------------------------------------------------------------------------------------- C01
@@ -242,7 +244,7 @@ for n, tier, mem, to in ((0, "quick", 8, 900), (1, "quick", 16, 1800), (2, "quic
 h("C19", "c19::c19_estimate_history", funcs=["realtime::estimate_next_chunk_time", "ChunkTimingStats::{new,add_timing,get_average_timing,get_average_attempts}", "std HashMap/VecDeque"], space="11 samples under one key (durations 0..=60000 ms, attempts 1..=5, all symbolic) + 1 sample under another key", bounds="exactly 11+1 recorded samples; unwind 24", mfs=4096, mem=24, timeout=3600)
 h("C13", "c13::c13_truncated_last_zones", tier="thorough", funcs=CFM, space="one segment whose azimuth 359 declares two zones; cut at 726..=734", bounds="unwind 362", mfs=16384, mem=24, timeout=10800, unwind_is_violation=True)
 h("C04", "c04::c04_vcp_fixed_frame", funcs=["decode_volume_coverage_pattern"], space="all 2^(8*114) inputs of 114 bytes", bounds="fixed length; unwind 5", mfs=128, mem=12, unwind_is_violation=True, timeout=1800)
-h("C04", "c04::c04_messages_short_stream", funcs=["decode_messages", "decode_message_header", "decode_message_contents", "decode_digital_radar_data"], space="76-byte streams: free message header, type 31, one block with free type/ASCII name/contents", bounds="fixed length 76; unwind 12", mfs=128, mem=24, unwind_is_violation=True, timeout=3000)
+h("C04", "c04::c04_messages_short_stream", funcs=["decode_messages", "decode_message_header", "decode_message_contents", "decode_digital_radar_data"], space="76-byte streams: one type-31 message; free size fields of the message header, free block type and ASCII block name; rest zero", bounds="fixed length 76; unwind 12", mfs=128, mem=24, unwind_is_violation=True, timeout=3000)
 h("C01", "c01::c01_two_radials_same_elevation", funcs=SC, space="1 record, 2 radials of elevation 1, each with a VOL block: azimuth numbers, VCP numbers, times symbolic", bounds="2 radials, concrete elevation numbers (1,1); unwind 8", mfs=4096, mem=30, timeout=3600)
 h("C01", "c01::c01_two_radials_two_elevations", funcs=SC, space="1 record, 2 radials of elevations 1 and 2, each with a VOL block", bounds="2 radials, concrete elevation numbers (1,2); unwind 8", mfs=4096, mem=30, timeout=3600)
 h("C16", "c16::c16_archive_name_total", funcs=["archive::Identifier::{new,site,date_time}"], space="all strings of 0..=24 bytes: free ASCII with one 2-byte character at any position", bounds="L = 24; chrono's NaiveDate/NaiveTime::parse_from_str stubbed by 'any result'; unwind 28", mem=12, timeout=1800)
